@@ -136,7 +136,7 @@ Definition function_routes : list (string * string) := [
   ("where", "Where")
 ].
 (* structure of Tensor.__array_ufunc__ / _as_constant_array, read from the source *)
-Definition au_honours_method_registered : bool := false.
+Definition au_honours_method_registered : bool := true.
 Definition au_honours_method_fallback : bool := true.
 Definition au_fallback_casters : list (string * string) := [("_REGISTERED_BOOL_ONLY_UFUNC", "asarray"); ("_REGISTERED_CONST_ONLY_UFUNC", "_as_constant_array")].
 Definition au_else_notimplemented : bool := true.
